@@ -303,7 +303,12 @@ class Ctx:
         if env:
             e.update(env)
         p = subprocess.run([exe], input="\n".join(lines) + "\n", capture_output=True, text=True, env=e, timeout=timeout)
-        return p.stdout.split("\n")[:-1] if p.stdout.endswith("\n") else p.stdout.split("\n"), p.stderr, p.returncode
+        lines = p.stdout.split("\n")
+        # only complete lines count as answers; an unterminated tail (or the empty string when nothing was
+        # printed) is kept only for a process that ended normally
+        if p.stdout.endswith("\n") or p.returncode != 0 or p.stdout == "":
+            lines = lines[:-1]
+        return lines, p.stderr, p.returncode
 
     def diff_run(self, exe, lines, label="", env=None, driver=None):
         """Run the C harness and the Lean driver on the same op lines; list of
